@@ -681,7 +681,7 @@ func init() {
 	p := &core.Property{
 		ID:         "C18",
 		Interleave: []string{"command", "reject", "total"},
-		Rule:       "messages built through the API: commands with 0..5 sublists × 0..3 instructions × 0..3 policy parts (with and without network classmark), rejects with 0..5 subresults × 0..3 results, completes — nested lists compared with a reference serialiser whose lengths are computed from content and whose PLMN octets are TS 24.008, and decode(encode) compared field by field; PLMN: every (MCC, MNC) pair the setters accept against PlmnIDToNas; totality: every byte string of <= 2 (thorough 3) octets plus truncated/mutated encodings and 4-octet instruction headers through the three decoders. Non-trivial = message with at least one sublist / a mutated string; distinct by seed / bytes.",
+		Rule:       "messages built through the API: commands with 0..5 sublists × 0..3 instructions × 0..3 policy parts (with and without network classmark), element counts of 255..12000 parts / 255..9000 instructions / 255..9000 sublists under the 16-bit lengths; rejects with 0..5 subresults × 0..3 results, completes — nested lists compared with a reference serialiser whose lengths are computed from content and whose PLMN octets are TS 24.008, and decode(encode) compared field by field; PLMN: every (MCC, MNC) pair the setters accept against PlmnIDToNas; totality: every byte string of <= 2 (thorough 3) octets plus truncated/mutated encodings and 4-octet instruction headers through the three decoders. Non-trivial = message with at least one sublist / a mutated string; distinct by seed / bytes.",
 		Assumptions: []string{
 			"integer MCC/MNC cannot express leading zeros beyond the 2/3-digit rule (MNC < 100 is a 2-digit MNC); 'all MCC/MNC' means every pair the setter accepts",
 			"Result.Cause is forced to 0x6F by the library on both sides; equality is on what the API lets a caller express",
